@@ -435,8 +435,74 @@ pub fn run(ctx: &Ctx) -> i32 {
         Acc::merge,
         acc_zero,
     );
+    // the argument of string->symbol is a mutable object: convert, change the same object in place to another string of
+    // the same number of characters, convert again, change it back, convert again. Every conversion must answer for the
+    // contents at that moment, and the symbols obtained earlier keep their names. All ordered pairs within each group.
+    let groups: Vec<Vec<&str>> = vec![
+        vec!["a", "b", "A", " ", "1", "é", "ñ", "λ", "ж", "😊", "😀"],
+        vec!["aaa", "baa", "aab", "aba", "abc", "a b", "12a", "123", "aéa", "añb", "λλλ", "a😊b"],
+    ];
+    let mut mut_pairs: Vec<(String, String)> = vec![];
+    for g in &groups {
+        for x in g {
+            for y in g {
+                if x != y {
+                    mut_pairs.push((x.to_string(), y.to_string()));
+                }
+            }
+        }
+    }
+    let a6 = par_fold(
+        mut_pairs.len() as u64 * 2,
+        16,
+        || St { im: None, used: 0, uid: 0 },
+        |st, acc, i| {
+            let (l1, l2) = &mut_pairs[(i / 2) as usize];
+            let (lit1, lit2) = (string_literal(l1), string_literal(l2));
+            let n = l1.chars().count();
+            // two ways of changing the object: character by character, or (second variant) string-fill! then characters
+            let set_to = |lit: &str| -> String {
+                let mut t = String::new();
+                if i % 2 == 1 {
+                    t.push_str("(string-fill! s #\\~) ");
+                }
+                for j in 0..n {
+                    t.push_str(&format!("(string-set! s {} (string-ref {} {})) ", j, lit, j));
+                }
+                t
+            };
+            let text = format!(
+                "(let* ((s (string-copy {l1})) (y1 (string->symbol s))) {to2}(let ((y2 (string->symbol s))) {to1}(let ((y3 (string->symbol s))) (list (string=? (symbol->string y2) {l2}) (eq? y2 (string->symbol {l2})) (eq? y2 (string->symbol (string-copy {l2}))) (string=? (symbol->string y1) {l1}) (eq? y1 y3) (eq? y1 (string->symbol {l1})) (eq? y1 y2)))))",
+                l1 = lit1,
+                l2 = lit2,
+                to2 = set_to(&lit2),
+                to1 = set_to(&lit1)
+            );
+            acc.evals += 1;
+            beat(&text);
+            let im = vm(st);
+            let got = im.eval_text(&text).show();
+            if got == "(#t #t #t #t #t #t #f)" {
+                acc.nontrivial += 1;
+                acc.outcome("mutated-argument-converted-afresh");
+            } else {
+                acc.outcome("mutated-argument-fails");
+                acc.violation(Violation {
+                    key: format!("mutated-argument:{:?}->{:?}:{}", l1, l2, if i % 2 == 1 { "fill+set" } else { "set" }),
+                    class: Some("string->symbol/argument-mutated-in-place".into()),
+                    observed: if got.starts_with("panic") { "panic".into() } else if got.starts_with("error") { "error".into() } else { "stale-or-wrong-symbol".into() },
+                    detail: json!({"session": [text], "expected": "(#t #t #t #t #t #t #f)", "observed": got}),
+                });
+                if got.starts_with("panic") {
+                    st.im = None;
+                }
+            }
+        },
+        Acc::merge,
+        acc_zero,
+    );
     let mut acc = Acc::new();
-    for a in [a1, a_mass, a2, a3, a4, a5] {
+    for a in [a1, a_mass, a2, a3, a4, a5, a6] {
         acc = Acc::merge(acc, a);
     }
     rep.states = Some(acc.evals);
